@@ -534,6 +534,19 @@ func (in *instrumenter) rewriteFile(p *pkgInfo, f *ast.File, name string, write 
 						in.res.Seams["chan_close"]++
 					}
 				}
+				// uintptr(unsafe.Pointer(p)): an address kept as a number does not
+				// keep p alive; whatever is done with it depends on when the
+				// collector runs (forced collections are a fault kind then)
+				if id, ok := x.Fun.(*ast.Ident); ok && id.Name == "uintptr" && len(x.Args) == 1 {
+					if c2, ok := x.Args[0].(*ast.CallExpr); ok {
+						if se, ok := c2.Fun.(*ast.SelectorExpr); ok && se.Sel.Name == "Pointer" {
+							if pid, ok := se.X.(*ast.Ident); ok && pid.Name == "unsafe" {
+								in.res.Seams["gc_lifetime"]++
+								in.res.Seams["addr_identity"]++
+							}
+						}
+					}
+				}
 			case *ast.RangeStmt:
 				if tv, ok := p.info.Types[x.X]; ok && tv.Type != nil {
 					switch tv.Type.Underlying().(type) {
@@ -548,7 +561,7 @@ func (in *instrumenter) rewriteFile(p *pkgInfo, f *ast.File, name string, write 
 					}
 				}
 			case *ast.GoStmt:
-				if !in.rewriteGo(x, off, add, rt, relFile, src) {
+				if !in.rewriteGo(p, x, off, add, rt, relFile, src) {
 					return false // statement text replaced wholesale: no nested edits
 				}
 			case *ast.SelectorExpr:
@@ -704,7 +717,7 @@ func (in *instrumenter) noteUnseamed(file string, pos token.Pos, what string) {
 }
 
 // rewriteGo turns `go f(a, b)` into a simrt.Go call that registers a task.
-func (in *instrumenter) rewriteGo(g *ast.GoStmt, off func(token.Pos) int, add func(int, int, string), rt, relFile string, src []byte) (descend bool) {
+func (in *instrumenter) rewriteGo(p *pkgInfo, g *ast.GoStmt, off func(token.Pos) int, add func(int, int, string), rt, relFile string, src []byte) (descend bool) {
 	call := g.Call
 	if fl, ok := call.Fun.(*ast.FuncLit); ok && len(call.Args) == 0 {
 		// go func(){...}()  ->  simrt.Go(func(){...})
@@ -739,14 +752,52 @@ func (in *instrumenter) rewriteGo(g *ast.GoStmt, off func(token.Pos) int, add fu
 	}
 	// general case: evaluate function value and arguments now, call later
 	// go f(a, b...) -> { zzf, zz0, zz1 := f, a, b; simrt.Go(func(){ zzf(zz0, zz1...) }) }
-	lhs = append([]string{"zzf"}, lhs...)
-	rhs = append([]string{flat(src[off(call.Fun.Pos()):off(call.Fun.End())])}, rhs...)
-	text := fmt.Sprintf("{ %s := %s; %s.Go(func() { zzf(%s) }) }", strings.Join(lhs, ", "), strings.Join(rhs, ", "), rt, strings.Join(args, ", "))
+	funText := flat(src[off(call.Fun.Pos()):off(call.Fun.End())])
+	var text string
+	if declaredFunc(p, call.Fun) {
+		// a declared function (possibly generic, instantiated by inference from
+		// the arguments): nothing to evaluate now, and a generic function cannot
+		// be bound to a variable without instantiation
+		if len(lhs) == 0 {
+			text = fmt.Sprintf("{ %s.Go(func() { %s() }) }", rt, funText)
+		} else {
+			text = fmt.Sprintf("{ %s := %s; %s.Go(func() { %s(%s) }) }", strings.Join(lhs, ", "), strings.Join(rhs, ", "), rt, funText, strings.Join(args, ", "))
+		}
+	} else {
+		lhs = append([]string{"zzf"}, lhs...)
+		rhs = append([]string{funText}, rhs...)
+		text = fmt.Sprintf("{ %s := %s; %s.Go(func() { zzf(%s) }) }", strings.Join(lhs, ", "), strings.Join(rhs, ", "), rt, strings.Join(args, ", "))
+	}
 	// keep line count: pad with the newlines the original text contained
 	orig := src[off(g.Pos()):off(g.End())]
 	text += strings.Repeat("\n", strings.Count(string(orig), "\n"))
 	add(off(g.Pos()), int(g.End()-g.Pos()), text)
 	in.res.Seams["go_stmt"]++
+	return false
+}
+
+// declaredFunc reports whether e names a function declared at package level
+// (f, pkg.F, f[T], pkg.F[T]) rather than a function value that has to be
+// evaluated when the go statement executes.
+func declaredFunc(p *pkgInfo, e ast.Expr) bool {
+	switch x := e.(type) {
+	case *ast.ParenExpr:
+		return declaredFunc(p, x.X)
+	case *ast.IndexExpr:
+		return declaredFunc(p, x.X)
+	case *ast.IndexListExpr:
+		return declaredFunc(p, x.X)
+	case *ast.Ident:
+		f, ok := p.info.Uses[x].(*types.Func)
+		return ok && f.Type().(*types.Signature).Recv() == nil
+	case *ast.SelectorExpr:
+		if id, ok := x.X.(*ast.Ident); ok {
+			if _, isPkg := p.info.Uses[id].(*types.PkgName); isPkg {
+				_, ok := p.info.Uses[x.Sel].(*types.Func)
+				return ok
+			}
+		}
+	}
 	return false
 }
 
